@@ -294,6 +294,76 @@ def opaque_args_in_order(f):
     return True, ''
 
 
+
+# ---- the parser's qubit count for a program without statements, by evaluation (round 3)
+REG_LAYOUTS = [
+    ('qreg q[2]', [('q', 'q', 2)], 2),
+    ('qreg q[2]; qreg r[3]', [('q', 'q', 2), ('q', 'r', 3)], 5),
+    ('creg c[4]; qreg q[2]; creg d[1]; qreg r[3]', [('c', 'c', 4), ('q', 'q', 2), ('c', 'd', 1), ('q', 'r', 3)], 5),
+    ('qreg a[1]; qreg q[3]; qreg z[2]', [('q', 'a', 1), ('q', 'q', 3), ('q', 'z', 2)], 6),
+    ('a register without a size next to qreg q[3]', [('q', 'a', None), ('q', 'q', 3)], 4),
+    ('creg c[2] only', [('c', 'c', 2)], 0),
+    ('no declarations', [], 0),
+]
+
+
+def empty_program_qubits(facts, key='circuit::Circuit::from_qasm_parser'):
+    """from_qasm_parser interpreted on host objects for the external openqasm crate, for programs that declare registers and contain NO statement
+    (openqasm's Linearize then never calls GateWriter::initialize): [(layout, expected qubits, qubits of the returned circuit | text)]"""
+    f = facts['fns'][key]
+    out = []
+    for text, decls, want in REG_LAYOUTS:
+        it = minirust.Interp(fuel=20000, facts=facts, inline=lambda c: c.startswith(('circuit::Circuit::', 'gate::')) and c != key)
+
+        class Res(minirust.Obj):
+            def __init__(self, v):
+                minirust.Obj.__init__(self, 'openqasm-result', {'to_errors': lambda a: ('Ok', v), 'unwrap': lambda a: v, 'expect': lambda a: v}, strict=True)
+        prog = {'__struct__': 'openqasm::Program', 'decls': [
+            {'__struct__': 'openqasm::Decl::' + ('QReg' if k == 'q' else 'CReg'), 'reg': {'__struct__': 'openqasm::Reg', 'name': n, 'index': minirust.NONE if sz is None else minirust.some(sz)}}
+            for k, n, sz in decls]}
+        parser = minirust.Obj('openqasm-parser', {}, strict=True)
+        parser.methods.update({'with_file_policy': lambda a: parser, 'parse_source': lambda a: (), 'parse_file': lambda a: (), 'done': lambda a: Res(prog)})
+        lin = minirust.Obj('openqasm-linearize', {'visit_program': lambda a: Res(())}, strict=True)
+
+        def hc(c, e, args, _parser=parser, _lin=lin):
+            if c.startswith('openqasm::SourceCache'):
+                return minirust.Obj('openqasm-cache', {}, strict=True)
+            if c.startswith('openqasm::Parser') and c.endswith('::new'):
+                return _parser
+            if c.startswith('openqasm::Linearize') and c.endswith('::new'):
+                args()
+                return _lin
+            if c.startswith('openqasm::'):
+                raise minirust.NoEval('openqasm function %s is not modelled' % c)
+            return NotImplemented
+
+        def hm(callee, nm, recv, args):
+            if isinstance(recv, dict) and recv.get('__struct__') == 'openqasm::Program':
+                if nm == 'type_check':
+                    return Res(())
+                raise minirust.NoEval('openqasm::Program::%s is not modelled' % nm)
+            return NotImplemented
+        it.host_call, it.host_method = hc, hm
+        ps = [p_ for p_ in f['params']]
+        if len(ps) != 1:
+            raise minirust.NoEval('from_qasm_parser takes %d parameters' % len(ps))
+        env = {}
+        if not it.bind(ps[0], (lambda *_a: None), env):
+            raise minirust.NoEval('parameter pattern')
+        try:
+            r = it.ev(f['hir'], env)
+        except minirust._Return as ex:
+            r = ex.v
+        if isinstance(r, tuple) and len(r) == 2 and r[0] == 'Ok' and isinstance(r[1], dict) and r[1].get('__struct__') == 'circuit::Circuit':
+            c = r[1]
+            got = c.get('nqubits') if isinstance(c.get('nqubits'), int) and not c.get('gates') else 'a circuit with gates / without a qubit count: %r' % (c,)
+        elif isinstance(r, tuple) and len(r) == 2 and r[0] == 'Err':
+            got = 'Err(%s)' % (r[1],)
+        else:
+            raise minirust.NoEval('from_qasm_parser returned %r' % (r,))
+        out.append((text, want, got))
+    return out
+
 def run(ck):
     facts = ck.facts
     ck.decided('D1 name tables: from_qasm_name(qasm_name(k)) = k for every kind but UnknownGate, names equal the standard ones; the opaque prelude declares every gate name of the property with arity num_qubits() and one parameter exactly when to_qasm prints one',
@@ -471,6 +541,17 @@ def run(ck):
         v = False       # nothing reads the declarations and no circuit with a computed size is ever built: the count of an empty program stays 0
     else:
         v = None
+    try:
+        rows = empty_program_qubits(facts, pk)
+        badr = [(t, w, g) for t, w, g in rows if g != w]
+        ck.ob('E3-parse', 'from_qasm/qubit-count-of-a-program-without-statements', not badr, ck.site(pk),
+              ('a program without statements that declares "%s" parses to %s qubit(s), its registers have %d: the registers of a zero-gate circuit are not mapped to consecutive qubits [%d of %d register layouts]'
+               % (badr[0][0], badr[0][2], badr[0][1], len(badr), len(rows))) if badr else '', sample={'layouts': [t for t, _w, _g in rows]})
+        ck.floor('E3-parse-layouts', len(rows), 7)
+        if not badr and v is False:
+            v = None       # the structural reading does not recognise the fallback, the evaluation decided it: shape not recognised, not a refutation
+    except (minirust.NoEval, minirust.Proceed, TypeError, KeyError, IndexError, AttributeError) as ex:
+        ck.note('from_qasm_parser on a program without statements: the evaluator declined (%s); structural reading used' % str(ex)[:120])
     ck.ob3('R-PATH', 'from_qasm/qubit-count-of-a-program-without-statements', v, ck.site(pk),
            'the parsed circuit starts with 0 qubits and its count is only ever set by GateWriter::initialize, which openqasm calls at the first statement: a program that declares registers but has no gate '
            '(what Circuit::new(n).to_qasm() prints) parses back as a 0-qubit circuit — zero-gate circuits do not round-trip')
